@@ -830,6 +830,10 @@ impl JxlImage {
                         return JpegReconstructionStatus::Invalid;
                     }
                 }
+                if self.num_loaded_frames() == 0 {
+                    // Reconstruction data may come before the codestream.
+                    return JpegReconstructionStatus::NeedMoreData;
+                }
 
                 JpegReconstructionStatus::Available
             }
